@@ -417,3 +417,20 @@ def run(repo: Repo, rep: Report, tier: str) -> None:
                 n8b += 1
                 rep.bad("C07-R8", f"{m8.rel}: log handler on stdout", f"`{norm(c)[:70]}`", f"{m8.rel}:{c.lineno}")
     rep.floor("C07-R8", "logging configuration calls", n8b, 2)
+
+    # ---------------- R9 / R10 ---------------------------------------------------------
+    _borrow7(repo, rep, "C18", "C18-R7", "C07-R9", "every planned wire has both its ends in the blueprint: no placement is removed once connections are planned (the emitter skips a wire "
+             "whose end is missing)", floor=1)
+    rep.rule("C07-R10", "each condition row is configured from its own data: the keyword dict handed to DeciderCombinator.Condition(**kw) is created afresh inside the loop over the rows "
+             "(a dict that lives across iterations carries `second_signal`, `constant` or network selections of an earlier row into a later one)")
+    mcf10 = emit_cls.methods["_configure_decider_multi_condition"]
+    n10 = 0
+    for lp10 in [n for n in walk_local(mcf10.node) if isinstance(n, ast.For)]:
+        for k10 in [c for c in ast.walk(lp10) if isinstance(c, ast.Call) and call_name(c) == "Condition" and any(kw.arg is None for kw in c.keywords)]:
+            n10 += 1
+            kwname = next(norm(kw.value) for kw in k10.keywords if kw.arg is None)
+            fresh = [s for s in ast.walk(lp10) if isinstance(s, (ast.Assign, ast.AnnAssign)) and norm(s.targets[0] if isinstance(s, ast.Assign) else s.target) == kwname
+                     and (isinstance(s.value, ast.Dict) or (isinstance(s.value, ast.Call) and call_name(s.value) == "dict"))]
+            rep.check(bool(fresh), "C07-R10", f"{mcf10.short}: the keyword dict of a condition row is created per row", "dict display inside the loop body" if fresh else
+                      f"`{kwname}` is created outside the loop and only overwritten key by key: a key set for row 1 and not for row 2 (second_signal, constant, *_networks) is still there for row 2", mcf10.loc(k10))
+    rep.floor("C07-R10", "Condition(**kw) constructions in row loops", n10, 1)
